@@ -8,7 +8,8 @@
 (***************************************************************************)
 EXTENDS GcImpl, Json
 
-CONSTANTS MaxOps
+CONSTANTS MaxOps,
+          GDrop, GOther, GCollect   \* offer probabilities (percent) of handle drops, secondary operations, collect
 
 VARIABLE hist
 simvars == <<vars, hist>>
@@ -19,42 +20,50 @@ Rows(kd)  == {x \in DOMAIN EB : EB[x].kind = kd /\ EB[x].rc = 1}
 Maps      == {m \in DOMAIN MB : MapOK(m)}
 One(S)    == {RandomElement(S)}
 
+\* thinning: an operation class is offered in a step with probability g/100 (TLC then picks uniformly among the offers)
+G(g) == g >= 100 \/ RandomElement(1..100) <= g
+
 SimMutate ==
+  LET hs  == HeldSet
+      hs0 == hs \cup {0}
+      fh  == FromHeld
+      wk  == Rows("weak")
+      ep  == Rows("eph")
+      mp  == Maps
+  IN
   \/ Alloc
-  \/ HeldSet # {} /\
-       \/ \E a \in One(HeldSet) : Clone(a)
-       \/ \E a \in One(HeldSet) : DropHandle(a)
-       \/ \E a \in One(HeldSet) : DropHandle(a)
-       \/ \E a \in One(HeldSet) : DropHandle(a)
-       \/ \E a \in One(HeldSet) : MkWeak(a)
-       \/ \E a \in One(HeldSet), b \in One(HeldSet) : Link(a, b)
-       \/ \E a \in One(HeldSet), b \in One(HeldSet) : Link(a, b)
-       \/ \E a \in One(HeldSet), b \in One(HeldSet) : Link(b, a)
-       \/ \E a \in One(HeldSet) : Link(a, a)
-       \/ \E a \in One(HeldSet), t \in One(nodes) : Arm(a, t)
-       \/ \E k \in One(HeldSet), v \in One(HeldSet), h \in One(HeldSet \cup {0}) : MkEph(k, v, h)
-       \/ \E k \in One(HeldSet), v \in One(HeldSet) : MkEph(k, v, 0)
-       \/ \E h \in One(HeldSet \cup {0}) : MkWm(h)
-       \/ Maps # {} /\ \E m \in One(Maps), k \in One(HeldSet), v \in One(HeldSet) : WmInsert(m, k, v)
-       \/ Maps # {} /\ \E m \in One(Maps), k \in One(HeldSet) : WmRemove(m, k)
-       \/ Maps # {} /\ \E m \in One(Maps), k \in One(HeldSet) : WmGet(m, k)
-  \/ FromHeld # {} /\
-       \/ \E p \in One(FromHeld) : Unlink(p[1], p[2])
-       \/ \E p \in One(FromHeld) : Load(p[1], p[2])
-       \/ \E p \in One(FromHeld) : Arm(p[1], p[2])
-  \/ Rows("weak") # {} /\
-       \/ \E x \in One(Rows("weak")) : Upgrade(x)
-       \/ \E x \in One(Rows("weak")) : DropWeak(x)
-  \/ Rows("eph") # {} /\
-       \/ \E x \in One(Rows("eph")) : EphValue(x)
-       \/ \E x \in One(Rows("eph")) : DropEph(x)
-  \/ \E m \in DOMAIN MB : DropWm(m) /\ RandomElement(1..4) = 1
+  \/ hs # {} /\
+       \/ G(GOther) /\ \E a \in One(hs) : Clone(a)
+       \/ G(GDrop)  /\ \E a \in One(hs) : DropHandle(a)
+       \/ G(GDrop)  /\ \E a \in One(hs) : DropHandle(a)
+       \/ G(GOther) /\ \E a \in One(hs) : MkWeak(a)
+       \/ \E a \in One(hs), b \in One(hs) : Link(a, b)
+       \/ \E a \in One(hs), b \in One(hs) : Link(b, a)
+       \/ G(GOther) /\ \E a \in One(hs) : Link(a, a)
+       \/ G(GOther) /\ \E a \in One(hs), t \in One(nodes) : Arm(a, t)
+       \/ \E k \in One(hs), v \in One(hs), h \in One(hs0) : MkEph(k, v, h)
+       \/ G(GOther) /\ \E k \in One(hs), v \in One(hs) : MkEph(k, v, 0)
+       \/ G(GOther) /\ \E h \in One(hs0) : MkWm(h)
+       \/ mp # {} /\ \E m \in One(mp), k \in One(hs), v \in One(hs) : WmInsert(m, k, v)
+       \/ G(GOther) /\ mp # {} /\ \E m \in One(mp), k \in One(hs) : WmRemove(m, k)
+       \/ G(GOther) /\ mp # {} /\ \E m \in One(mp), k \in One(hs) : WmGet(m, k)
+  \/ fh # {} /\
+       \/ G(GOther) /\ \E p \in One(fh) : Unlink(p[1], p[2])
+       \/ G(GOther) /\ \E p \in One(fh) : Load(p[1], p[2])
+       \/ G(GOther) /\ \E p \in One(fh) : Arm(p[1], p[2])
+  \/ wk # {} /\
+       \/ G(GOther) /\ \E x \in One(wk) : Upgrade(x)
+       \/ G(GOther) /\ \E x \in One(wk) : DropWeak(x)
+  \/ ep # {} /\
+       \/ G(GOther) /\ \E x \in One(ep) : EphValue(x)
+       \/ G(GOther) /\ \E x \in One(ep) : DropEph(x)
+  \/ G(GOther) /\ \E m \in DOMAIN MB : DropWm(m) /\ RandomElement(1..4) = 1
 
 HRec == IF obs'.op = "collect" THEN obs' @@ [eb |-> ist'[1], wmb |-> ist'[2]] ELSE obs'
 
 SimInit == Init /\ hist = <<>>
 SimNext ==
-  /\ \/ Len(hist) < MaxOps /\ (SimMutate \/ StartCollect)
+  /\ \/ Len(hist) < MaxOps /\ (SimMutate \/ (G(GCollect) /\ StartCollect))
      \/ CollectStep
   /\ hist' = IF gc'.phase = "idle" THEN Append(hist, HRec) ELSE hist
 SimSpec == SimInit /\ [][SimNext]_simvars
